@@ -21,7 +21,7 @@ META = {
         "R18.3": "OneOfCloning fields private, constructed only in new, never written, no &mut self methods",
         "R18.4": "membership: samples are clones of collection elements; num_choices; panic audit",
     },
-    "trusted_base": ["rand 0.9: Distribution::sample_iter yields samples of the distribution; Uniform::new(lo, hi) samples lo <= x < hi; slice::Choose::new errs iff empty and samples elements of the slice uniformly", "std take/collect", "uecfacts driver + uecheck rule engine"],
+    "trusted_base": ["rand 0.9: Distribution::sample_iter yields samples of the distribution; Uniform::new(lo, hi) samples lo <= x < hi and Uniform::try_from(lo..hi) is defined as that call; slice::Choose::new errs iff empty and samples elements of the slice uniformly", "std take/collect", "uecfacts driver + uecheck rule engine"],
     "assumptions": ["T: Borrow<[U]> returns the same slice on every call (true for Vec, arrays, slices)"],
     "not_decided": ["uniformity of the choices"],
 }
@@ -179,10 +179,14 @@ def check(ctx):
     b = {}
     good = len(okp) == 1 and match(okp[0].ret, Agg("Result::Ok", Agg("OneOfCloning::OneOfCloning", Param(1), ANY, num, ANY)), b) and match(okp[0].ret[3][0][3][1], rng_, b)
     names = [x["name"] for x in F.adts[D + "wrappers::owned::OneOfCloning"]["variants"][0]["fields"]]
+    canon_new = None
+    if not good:
+        canon_new = one_of_new_canonical(ctx, f)
+        good = canon_new
     ctx.check(good and names == ["collection", "range", "num_choices", "_p"], "R18.2", "OneOfCloning::new/nonzero-len-then-Uniform::new(0,len)", short(okp[0].ret, 6)[:300] if okp else "-", f.at(),
               bad_detail="expected Ok(OneOfCloning{collection, range: Uniform::new(0, n.get())?, num_choices: n}) with n = NonZeroUsize::new(collection.borrow().len()).ok_or(EmptySlice)?; extracted " + "; ".join(short(p.ret, 9) for p in okp))
     empties = [p for p in erp if match(p.ret, Call("FromResidual::from_residual", TryErr(Call("Option::ok_or", Call("NonZero::new")))))]
-    ctx.check(len(empties) == 1 and not any(callee_is(c, "Uniform::new", "Uniform::new_inclusive") for c in empties[0].calls()), "R18.2", "OneOfCloning::new/empty-rejected-before-range-built",
+    ctx.check((len(empties) == 1 and not any(callee_is(c, "Uniform::new", "Uniform::new_inclusive") for c in empties[0].calls())) or bool(canon_new), "R18.2", "OneOfCloning::new/empty-rejected-before-range-built",
               short(empties[0].ret, 5) if empties else "-", f.at())
     f = ctx.fn("ec_core::distributions::wrappers::choose_cloning::ChooseCloning::<'a, T>::new")
     ps = return_paths(ctx.paths(f))
@@ -258,6 +262,54 @@ def check(ctx):
          "reason": "debug_assert!(len >= idx): same invariant", "guard": guard_one_of},
     ]
     audit_panics(ctx, "R18.4", scope, discharge, floor=2)
+
+
+def one_of_new_canonical(ctx, f):
+    """OneOfCloning::new over canonical outcomes: empty collection -> Err(EmptySlice) before any range is built; otherwise the
+    range is Uniform::new(0, n) - or `Uniform::try_from(0..n)`, which rand defines as exactly that call - with n the
+    NonZero length that is also stored as num_choices; a range error -> Err(EmptySlice); else Ok(Self{collection, range, n})"""
+    from . import ckit as K
+    paths = K.live(ctx.cpaths(f))
+    is_len = lambda e: match(K.strip(e, calls=()), Call("[T]::len", Call("Borrow::borrow", Through(Param(1)), nargs=1), nargs=1)) or \
+        match(e, Call("[T]::len", Call("Borrow::borrow", Through(Param(1)), nargs=1), nargs=1))
+    nzs = {c for p in paths for c in p.calls() if callee_is(c, "NonZero::new") and len(c[3]) == 1 and is_len(c[3][0])}
+    if len(nzs) != 1:
+        return False
+    nz = list(nzs)[0]
+    n_val = ("field", nz, 0, "Some")
+
+    def is_range_ctor(c):
+        if callee_is(c, "Uniform::new") and len(c[3]) == 2:
+            lo, hi = c[3]
+        elif callee_is(c, "TryFrom::try_from") and (c[2] or "").startswith("<rand::distr::Uniform<") and len(c[3]) == 1 and match(c[3][0], Agg("Range::Range", ANY, ANY)):
+            lo, hi = c[3][0][3]
+        else:
+            return False
+        return match(lo, Const(0)) and callee_is(K.strip(hi, calls=("Into::into", "From::from")), "NonZero::get") and K.strip(K.strip(hi, calls=("Into::into", "From::from"))[3][0], calls=()) == n_val
+    seen = set()
+    for p in paths:
+        kind, pay = K.outcome(p)
+        ctors = [c for c in p.calls() if callee_is(c, "Uniform::new", "Uniform::new_inclusive", "TryFrom::try_from", "Uniform::try_from")]
+        if K.discr_is(p, lambda o: K.strip(o, calls=()) == nz, 0):
+            if not (kind == "err" and match(K.conv_free(pay), Agg("EmptySlice::EmptySlice")) and not ctors):
+                return False
+            seen.add("empty")
+            continue
+        if not (K.discr_is(p, lambda o: K.strip(o, calls=()) == nz, 1) and len(ctors) == 1 and is_range_ctor(ctors[0])):
+            return False
+        u = ctors[0]
+        if K.discr_is(p, lambda o: K.strip(o, calls=()) == u, 0):
+            ok = kind == "ok" and pay is not None and match(pay, Agg("OneOfCloning::OneOfCloning", Param(1), lambda e: K.strip(e, calls=()) == ("field", u, 0, "Ok"), lambda e: K.strip(e, calls=()) == n_val, ANY))
+            if not ok:
+                return False
+            seen.add("ok")
+        elif K.discr_is(p, lambda o: K.strip(o, calls=()) == u, 1):
+            if not (kind == "err" and match(K.conv_free(pay), Agg("EmptySlice::EmptySlice"))):
+                return False
+            seen.add("range-err")
+        else:
+            return False
+    return {"empty", "ok"} <= seen
 
 
 def guard_one_of(ctx, s):
